@@ -15,11 +15,15 @@ use crate::{for_elem, for_pair};
 
 const PAIRS: [&str; 5] = ["T24xT24", "P8xP8", "P8xT24", "B1xB1", "L200xB1"];
 const ELEMS: [&str; 4] = ["T24", "P8", "L200", "B3"];
+const SET_ELEMS: [&str; 3] = ["T24", "P8", "B3"];
 
 pub fn run(c: &mut Ctx) {
     c.run_scenarios(|c, idx, rng| {
         let m = crate::util::mix(idx);
-        if m % 4 == 3 {
+        if m % 7 == 5 {
+            let e = SET_ELEMS[((m / 7) % SET_ELEMS.len() as u64) as usize];
+            for_elem!(e, set_scenario(c, rng));
+        } else if m % 4 == 3 {
             let pair = PAIRS[((m / 4) % PAIRS.len() as u64) as usize];
             for_pair!(pair, late_chaos_scenario(c, rng));
         } else if m % 3 < 2 {
@@ -122,5 +126,213 @@ pub fn late_chaos_scenario<K: Elem, V: Elem>(c: &mut Ctx, rng: &mut Rng) {
     let drained = d.map.drain().count();
     crate::check!(drained == len, "C05: drain yielded {} elements, len() was {}", drained, len);
     drop(d);
+    crate::plan::chaos_off();
+}
+
+/// HashSet under broken Hash/Eq: point operations, entry, the set-relation iterators and the in-place operators
+/// between two live sets (`|= &= ^= -=` look the same element up twice and must not trust that both lookups
+/// agree), either broken from the start or only after the sets were built lawfully up to exactly their capacity.
+pub fn set_scenario<T: Elem>(c: &mut Ctx, rng: &mut Rng) {
+    use crate::ckalloc::CkAlloc;
+    use crate::plan::KeyRef;
+    use crate::states::{Coll, Set, SetC};
+    use crate::util::catch_expected;
+    let late = rng.chance(1, 2);
+    let plan = if late { Plan::IdentThenChaos } else { Plan::Chaos };
+    let universe = (*rng.pick(&[6u32, 12, 30, 64])).min(T::ID_SPACE);
+    let eq_permille = *rng.pick(&[0u64, 0, 20, 200, 500]);
+    let palette = *rng.pick(&[2u64, 4, 16, 64]);
+    if late {
+        crate::plan::chaos_late(false);
+    } else {
+        chaos_seed(rng.next(), eq_permille, palette);
+    }
+    let bha = PlanBH::new(plan, rng.next());
+    let bhb = PlanBH::new(plan, rng.next());
+    crate::plan::set_current(plan, rng.next());
+    let mut a: SetC<T> = SetC(Set::with_capacity_and_hasher_in(*rng.pick(&[0usize, 3, 7, 14]), bha, CkAlloc));
+    let mut b: SetC<T> = SetC(Set::with_hasher_in(bhb, CkAlloc));
+    let fill_full = rng.chance(2, 3);
+    for id in 0..universe {
+        if fill_full {
+            if a.0.len() > 0 && a.0.len() == a.0.capacity() {
+                break;
+            }
+            a.0.insert(T::make(id, 1));
+        } else if rng.chance(1, 2) {
+            a.0.insert(T::make(id, 1));
+        }
+    }
+    for id in 0..universe {
+        if rng.chance(1, 2) {
+            b.0.insert(T::make(id, 2));
+        }
+    }
+    if late {
+        chaos_seed(rng.next(), eq_permille, palette);
+        crate::plan::chaos_late(true);
+    }
+    let mut d = Json::obj();
+    d.set("case", Json::s("C05 HashSet under broken Hash/Eq"));
+    d.set("element", Json::s(T::NAME));
+    d.set("broken_from", Json::s(if late { "after a lawful build" } else { "the start" }));
+    d.set("a_at_capacity", Json::Bool(a.0.len() == a.0.capacity()));
+    d.set("eq_lies_permille", Json::i(eq_permille));
+    d.set("hash_palette", Json::i(palette));
+    c.describe(d);
+    c.bump("set_scenarios");
+    if a.0.len() == a.0.capacity() {
+        c.bump("set_scenarios_starting_at_capacity");
+    }
+    c.sig_parts(&[88, late as u64, eq_permille, palette]);
+    let n_ops = if c.is_miri() { 16 } else { *rng.pick(&[12usize, 40, 120]) };
+    let safe = |what: &str, a: &SetC<T>, b: &SetC<T>| {
+        a.validate(what);
+        b.validate(what);
+        let (la, lb) = (a.0.len(), b.0.len());
+        let (ia, ib) = (a.0.iter().count(), b.0.iter().count());
+        crate::check!(la == ia && lb == ib, "C05 set {}: len() {} / {} but iter() yields {} / {}", what, la, lb, ia, ib);
+        for e in a.0.iter().chain(b.0.iter()) {
+            e.check();
+        }
+    };
+    for step in 0..n_ops {
+        let id = rng.below(universe as u64 + 2) as u32 % T::ID_SPACE;
+        let g = 100 + step as u16;
+        let op = rng.below(22);
+        c.evaluations += 1;
+        c.sig_parts(&[89, op, late as u64]);
+        crate::oplog!(c, "set op {} id {}", op, id);
+        if a.0.len() + b.0.len() > 600 {
+            a.0.clear();
+        }
+        match op {
+            0 => {
+                a.0.insert(T::make(id, g));
+            }
+            1 => {
+                if let Some(x) = a.0.replace(T::make(id, g)) {
+                    x.check();
+                }
+            }
+            2 => {
+                a.0.remove(&KeyRef(id));
+            }
+            3 => {
+                if let Some(x) = a.0.take(&KeyRef(id)) {
+                    x.check();
+                }
+            }
+            4 => {
+                let _ = a.0.contains(&KeyRef(id));
+                if let Some(x) = a.0.get(&T::make(id, g)) {
+                    x.check();
+                }
+            }
+            5 => {
+                a.0.get_or_insert(T::make(id, g)).check();
+            }
+            6 => {
+                // the equivalence assertion may legitimately fire under a lying Eq
+                let set = &mut a.0;
+                let _ = catch_expected(move || {
+                    set.get_or_insert_with(&KeyRef(id), |q| T::make(q.0, g)).check();
+                });
+            }
+            7 => {
+                use hashbrown::hash_set::Entry;
+                match a.0.entry(T::make(id, g)) {
+                    Entry::Occupied(o) => {
+                        o.get().check();
+                        if rng.chance(1, 2) {
+                            o.remove().check();
+                        }
+                    }
+                    Entry::Vacant(v) => {
+                        if rng.chance(2, 3) {
+                            v.insert();
+                        }
+                    }
+                }
+            }
+            8 => {
+                let salt = rng.next();
+                a.0.retain(|e| crate::util::mix(salt ^ e.id() as u64) % 3 != 0);
+            }
+            9 => {
+                let salt = rng.next();
+                let take = rng.usize_below(4);
+                let n = a.0.extract_if(|e| crate::util::mix(salt ^ e.id() as u64) % 2 == 0).take(take).count();
+                crate::check!(n <= take, "extract_if yielded more than taken");
+            }
+            10 => {
+                let take = rng.usize_below(3);
+                let mut dr = b.0.drain();
+                for _ in 0..take {
+                    if let Some(x) = dr.next() {
+                        x.check();
+                    }
+                }
+                drop(dr);
+                crate::check!(b.0.is_empty(), "C05 set: not empty after drain");
+                for i in 0..universe {
+                    if rng.chance(1, 2) {
+                        b.0.insert(T::make(i, g));
+                    }
+                }
+            }
+            11 => a.0 |= &b.0,
+            12 => a.0 &= &b.0,
+            13 | 14 | 15 => a.0 ^= &b.0,
+            16 => a.0 -= &b.0,
+            17 => {
+                let bound = a.0.len() + b.0.len();
+                let counts = [a.0.union(&b.0).count(), a.0.intersection(&b.0).count(), a.0.difference(&b.0).count(), a.0.symmetric_difference(&b.0).count()];
+                for n in counts {
+                    crate::check!(n <= bound, "C05 set: a set-relation iterator yielded {} elements from sets of {} and {}", n, a.0.len(), b.0.len());
+                }
+                let _ = (a.0.is_subset(&b.0), a.0.is_superset(&b.0), a.0.is_disjoint(&b.0), a.0 == b.0);
+            }
+            18 => {
+                let r = match rng.below(4) {
+                    0 => &a.0 | &b.0,
+                    1 => &a.0 & &b.0,
+                    2 => &a.0 ^ &b.0,
+                    _ => &a.0 - &b.0,
+                };
+                for e in r.iter() {
+                    e.check();
+                }
+                crate::check!(r.len() == r.iter().count(), "C05 set: operator result len() {} != iter().count()", r.len());
+            }
+            19 => {
+                if rng.chance(1, 2) {
+                    a.0.clone_from(&b.0);
+                } else {
+                    std::mem::swap(&mut a, &mut b);
+                }
+            }
+            20 => {
+                if rng.chance(1, 2) {
+                    a.0.reserve(rng.usize_below(20));
+                } else {
+                    a.0.shrink_to_fit();
+                }
+            }
+            _ => {
+                let items: Vec<T> = b.0.iter().map(|e| T::make(e.id(), g)).collect();
+                a.0.extend(items);
+            }
+        }
+        if step % (if crate::util::slow_lane() { 4 } else { 1 }) == 0 {
+            safe("after an operation", &a, &b);
+        }
+    }
+    safe("at the end", &a, &b);
+    let len = a.0.len();
+    let drained = a.0.drain().count();
+    crate::check!(drained == len, "C05 set: drain yielded {} elements, len() was {}", drained, len);
+    drop(a);
+    drop(b);
     crate::plan::chaos_off();
 }
